@@ -413,5 +413,11 @@ def run(pid, tier, seed, replay=None, keep=False, skip_mc=False):
         if not keep:
             shutil.rmtree(scratch, ignore_errors=True)
         else:
+            if rc == 2:
+                # keep the logs of a failed run, not its bulky data
+                for f in glob.glob(os.path.join(scratch, "*")):
+                    b = os.path.basename(f)
+                    if b.startswith(("meta-", "chunk", "specs")) or b in ("drive", "trace.ndjson", "scripts.ndjson") or b.startswith("scripts"):
+                        shutil.rmtree(f, ignore_errors=True) if os.path.isdir(f) else os.remove(f)
             log("scratch kept at", scratch)
     return rc
